@@ -191,6 +191,13 @@ func (a *API) SetFaults(fs ...*Fault) {
 
 func (a *API) ClearFaults() { a.SetFaults() }
 
+// AddFault arms one more fault without touching the call counters of those already set.
+func (a *API) AddFault(f *Fault) {
+	a.mu.Lock()
+	a.faults = append(a.faults, f)
+	a.mu.Unlock()
+}
+
 // StartCounting resets the Karpenter call counter (used to size fault enumerations).
 func (a *API) StartCounting() { a.mu.Lock(); a.calls = 0; a.counting = true; a.mu.Unlock() }
 func (a *API) Calls() int     { a.mu.Lock(); defer a.mu.Unlock(); return a.calls }
